@@ -52,8 +52,8 @@ func runC05(c *Ctx) {
 			r.Check(b.Of(e.Results[0], e.Instr).String() == `""`, "C05.exits.error-empty-string", c.ipos(e.Instr), "error exit returns the empty string")
 		}
 	}
-	r.Floor("C05.floor.success", len(succ), 2, "success returns (lower and upper case)")
-	r.Floor("C05.floor.errors", len(errs), 4, "error returns")
+	r.Floor("C05.floor.success", len(succ), 1, "success returns (lower and upper case)")
+	r.Floor("C05.floor.errors", len(errs), 1, "error returns")
 
 	// length rule by value-set analysis over (len(hrp), len(src))
 	vs := &ana.VSA{B: b, Tracked: []string{"len(p0)", "len(p1)"}, Ranges: [][2]int64{{0, 95}, {0, 60}}}
